@@ -1155,12 +1155,12 @@ def correspondence(ctx):
     env = _Env.get()
     rng = ctx.rng
     cases = []
-    for _ in range(ctx.n(2500, 150000)):
+    for _ in range(ctx.n(2500, 100000)):
         cases.append(gen_case(rng))
     lines = [case_line(ts, specs) for ts, _, specs, _, _ in cases]
     # _bisect alone, on the real Speaker
     bis = []
-    for _ in range(ctx.n(1000, 50000)):
+    for _ in range(ctx.n(1000, 30000)):
         b = rng.randrange(10**9)
         d = rng.choice([0, 1, -1, 2, -2, 3, -3, 5, 6, 7, -7, 1000, -999, 10**6 + 1, rng.randint(-10**8, 10**8)])
         P = gen_poly(rng, min(b, b + d), max(b, b + d), [b, b + d])
